@@ -23,7 +23,8 @@ def run(cmd, cwd):
 
 def main():
     pid, k = sys.argv[1], sys.argv[2]
-    src = f"/tmp/seedout/{pid}/{k}"
+    rnd = os.environ.get("SEED_ROUND", "")
+    src = f"/tmp/seedout{rnd}/{pid}/{k}"
     meta = json.load(open(f"{src}/meta.json"))
     cmd = meta.get("demo_cmd", "")
     pkg = None
@@ -37,8 +38,11 @@ def main():
         elif args[0] == "--map":
             fmap = dict(kv.split("=") for kv in args[1].split(","))
         args = args[2:]
-    if "&&" in cmd:
-        cmd = cmd.split("&&")[-1].strip()
+    import re
+    m = re.search(r"go test .*", cmd)
+    if m:
+        cmd = m.group(0)
+    cmd = re.sub(r"\s+\(with .*$", "", cmd).strip()
     if pkg is None:
         toks = [t for t in shlex.split(cmd) if t.startswith(".")]
         pkg = toks[-1] if toks else "."
@@ -88,7 +92,7 @@ def main():
         shutil.rmtree(wt, ignore_errors=True)
         run("git -C /repo worktree prune", "/")
     if ok:
-        dst = f"/verif/seeded/{pid}-{k}"
+        dst = f"/verif/seeded/{pid}-{k}" if not rnd else f"/verif/seeded/{pid}-r{rnd}{k}"
         os.makedirs(dst, exist_ok=True)
         shutil.copy(f"{src}/patch.diff", dst)
         for d in demos:
